@@ -26,6 +26,7 @@ func init() {
 }
 
 func runC41(c *eng.Ctx) {
+	defer runC41Wrapper(c)
 	p := c.P
 	H := "storage/remote:writeHandler"
 	commit, rollback := eng.OnVar("app", "Commit"), eng.OnVar("app", "Rollback")
